@@ -195,7 +195,6 @@ func ZZC16Names(script, pool string) {
 		}
 	}
 	usedAfterDecl := map[string]bool{}
-	usedBeforeOnly := map[string]bool{}
 	for _, u := range w.uses {
 		fd, declared := firstDecl[u.v.Name]
 		// an origin is evaluated before its variable is bound: a use inside the origin of
@@ -203,15 +202,14 @@ func ZZC16Names(script, pool string) {
 		bound := declared && (u.declIdx == -1 || fd < u.declIdx)
 		if !bound {
 			want = append(want, exp{"unbound", u.v.Name, u.v.Range})
-			if declared {
-				usedBeforeOnly[u.v.Name] = true
-			}
 		} else {
 			usedAfterDecl[u.v.Name] = true
 		}
 	}
 	for name, i := range firstDecl {
-		if !usedAfterDecl[name] && !usedBeforeOnly[name] {
+		// a mention where the variable is not yet declared is a use of an undeclared variable
+		// (reported as such above); it does not make the later declaration a used one
+		if !usedAfterDecl[name] {
 			want = append(want, exp{"unused", name, prog.Vars[i].Name.Range})
 		}
 	}
@@ -227,10 +225,6 @@ func ZZC16Names(script, pool string) {
 		case *UnusedVar:
 			kind, name = "unused", k.Name
 		default:
-			continue
-		}
-		if kind == "unused" && usedBeforeOnly[name] && !usedAfterDecl[name] {
-			// a variable referenced only before its declaration: the text does not say (two-sided)
 			continue
 		}
 		found := false
